@@ -12,7 +12,10 @@ Proof. reflexivity. Qed.
 
 (* ---- every list: 2048 words, no duplicate, words non-empty and free of white space ---- *)
 Definition word_plainb (w : list N) : bool :=
-  match w with [] => false | _ => forallb (fun c => negb (is_space c) && (c <? 1114112)) w end.
+  match w with
+  | [] => false
+  | _ => forallb (fun c => negb (is_space c) && (c <? 1114112) && negb ((55296 <=? c) && (c <=? 57343))) w
+  end.
 Definition list_okb (wl : list (list N)) : bool :=
   Nat.eqb (length wl) bip39_words_list_num && words_nodupb wl && forallb word_plainb wl.
 
@@ -24,7 +27,8 @@ Proof. reflexivity. Qed.
 
 Lemma bip39_list_ok wl : In wl bip39_langs ->
   length wl = 2048%nat /\ NoDup wl /\ words_nodupb wl = true /\
-  Forall (fun w => w <> [] /\ Forall (fun c => is_space c = false /\ c < 1114112) w) wl.
+  Forall (fun w => w <> [] /\
+                   Forall (fun c => is_space c = false /\ c < 1114112 /\ ~ (55296 <= c <= 57343)) w) wl.
 Proof.
   intros Hin. pose proof bip39_lists_okb as H. rewrite forallb_forall in H.
   specialize (H wl Hin). unfold list_okb in H.
@@ -34,8 +38,10 @@ Proof.
   apply Forall_forall. intros w Hw. rewrite forallb_forall in H3. specialize (H3 w Hw).
   destruct w as [|c t]; [discriminate|]. split; [discriminate|].
   apply Forall_forall. intros x Hx. unfold word_plainb in H3. rewrite forallb_forall in H3.
-  specialize (H3 x Hx). apply andb_true_iff in H3 as [Ha Hb].
-  apply negb_true_iff in Ha. apply N.ltb_lt in Hb. auto.
+  specialize (H3 x Hx). apply andb_true_iff in H3 as [H3 Hc]. apply andb_true_iff in H3 as [Ha Hb].
+  apply negb_true_iff in Ha. apply N.ltb_lt in Hb. apply negb_true_iff in Hc.
+  split; [exact Ha|]. split; [exact Hb|]. intros [A B].
+  apply N.leb_le in A. apply N.leb_le in B. rewrite A, B in Hc. discriminate.
 Qed.
 
 (* ---- pairwise overlap table ---- *)
